@@ -22,8 +22,9 @@ RECURSIVE Norm(_)
 Norm(j) == [k |-> j.k, c |-> {Norm(x) : x \in Range(j.c)}]
 Init == t \in 1..NT /\ l = 1 /\ bad = "" /\ v = 0 /\ s = ""
 \* expN: what is expected one container level down inside an argument (marshal converts foreign objects only at the top)
-PosCheck(x, exp0, expN) ==
-    LET Exp(i) == IF x.pos[i].name = "nested" THEN expN ELSE exp0
+\* expB: a batch result is an item of the list of results, i.e. it sits one level down in a list at the top
+PosCheck(x, exp0, expN, expB) ==
+    LET Exp(i) == IF x.pos[i].name = "nested" THEN expN ELSE IF x.pos[i].name = "batch" THEN expB ELSE exp0
         badpos == {i \in 1..Len(x.pos) :
                      \/ (Exp(i) = Sr!Err /\ x.pos[i].out # "err")
                      \/ (Exp(i) # Sr!Err /\ (x.pos[i].out # "ok" \/ Norm(x.pos[i].shape) # Exp(i)))} IN
@@ -36,10 +37,13 @@ PosCheck(x, exp0, expN) ==
 Check(x) ==
     LET sent == Norm(x.v)
         exp == Sr!Map(x.ser, sent)
-        pc == PosCheck(x, exp, Sr!MapAt(x.ser, sent, FALSE, 1)) IN
+        expB == Sr!MapAt(x.ser, sent, TRUE, 1)
+        pc == PosCheck(x, exp, Sr!MapAt(x.ser, sent, FALSE, 1), expB) IN
     IF x.hang THEN "C01.Hang"
     ELSE IF ~x.sym THEN "C01.ArgumentsAndResultsMappedDifferently"
     ELSE IF pc # "" THEN pc
+    ELSE IF exp # Sr!Err /\ expB = exp /\ ~x.bsame THEN "C01.BatchResultDiffersFromResult"
+    ELSE IF exp # Sr!Err /\ ~x.ssame THEN "C01.StreamedItemDiffersFromResult"
     ELSE IF ~x.idem THEN "C01.MappingNotIdempotent"
     ELSE IF Sr!Core(sent) /\ ~x.exact THEN "C01.CoreValueChanged"
     ELSE ""
